@@ -1,5 +1,7 @@
 import KinModel.Drv.Util
 import KinModel.RequestFlow
+import KinModel.Style
+import KinModel.Body
 open Lean
 namespace KinModel.Drv.C07
 open KinModel.Drv KinModel.RequestFlow
@@ -29,6 +31,47 @@ def dupIn (l : List Param) : Bool :=
   | [] => false
   | p :: r => r.any (fun q => q.name = p.name && q.loc = p.loc) || dupIn r
 
+/-! ### the bits recomputed by the models of the neighbours (C05 parameter decision, C06 body verdict)
+
+The stub declarations of the Go runner — an integer schema with maximum 9 or 1 in the default style of the location
+against the text `5`; a JSON body `{"a":1}` against an object schema requiring `a` or `b` — are handed to
+`Style.validateParameter` and `Body.validateRequestBodyD`; the case's facts must give the same bit. -/
+
+def styleLoc : In → Style.Loc
+  | .path => .path | .query => .query | .header => .header | .cookie => .cookie
+
+def styleParam (j : Json) : Style.Param :=
+  let loc := styleLoc (parseIn (getStr j "in"))
+  let m := Style.defaultMethod loc
+  ⟨⟨loc, m.1, m.2⟩, (getStr j "name").toList, getBool j "required", false,
+   .leaf (.prim { t := .integer, max := some (if getBool j "valid" then 9 else 1) })⟩
+
+/-- what the request carries for the parameter `j`; `query` = the whole query of the request -/
+def styleReq (query : List (Style.Str × List Style.Str)) (j : Json) : Style.Req :=
+  let sent := getBool j "sent"
+  match parseIn (getStr j "in") with
+  | .path => { path := some ['5'], query := query }
+  | .query => { query := query }
+  | .header => { header := if sent then some [['5']] else none, query := query }
+  | .cookie => { cookie := if sent then some ['5'] else none, query := query }
+
+def insertQ (n : Style.Str) : List (Style.Str × List Style.Str) → List (Style.Str × List Style.Str)
+  | [] => [(n, [['5']])]
+  | kv :: r => if kv.1 = n then kv :: r else kv :: insertQ n r
+
+def wholeQuery (ps : List Json) : List (Style.Str × List Style.Str) :=
+  ps.foldl (fun q j => if getStr j "in" == "query" && getBool j "sent" then insertQ (getStr j "name").toList q else q) []
+
+def bodyByC06 (bf : BodyFacts) : Bool :=
+  let need := if bf.valid then "a" else "b"
+  let schema := Body.RS.leaf (some .object) false false false 0 none [] [need.toList] none none
+  let rb : Body.ReqBody := ⟨bf.required, [("application/json".toList, ⟨some schema, []⟩)]⟩
+  let ct := if bf.declaredType then "application/json" else "text/csv"
+  let b : Body.BodyIn :=
+    if bf.sent then { text := "{\"a\":1}".toList, json := some (.obj [("a".toList, .int 1)]), form := none, parts := none }
+    else { text := [], json := none, form := none, parts := none }
+  (Body.validateRequestBodyD Body.registry rb ct.toList b false true).isOk
+
 /-- request: {opParams (null | [..]), pathParams, opSecurity (null | [[..]]), docSecurity, declared:[..],
     accepted:["scheme(scope,scope)", ..], authNil, body (null | {required, sent, ctOK, valid}),
     excludeBody, excludeQuery, multi, …fields only the Go runner reads} -/
@@ -54,6 +97,11 @@ def handle (j : Json) : Json :=
   let allParams := op.pathParams ++ opList op
   let allFacts := ((getArr j "pathParams") ++ (getArr j "opParams")).map parseFacts
   let uses := (securityList op).flatten
+  let allJ := (getArr j "pathParams") ++ (getArr j "opParams")
+  let q := wholeQuery allJ
+  let composeAgree :=
+    allJ.all (fun pj => (Style.validateParameter (styleParam pj) (styleReq q pj) == .accept) == (parseFacts pj).ok) &&
+    (!hasBody || bodyByC06 bf == bf.ok)
   let build := getD j "build" Json.null
   let branches :=
     (if op.opSecurity.isSome then ["sec.op"] else []) ++
@@ -87,7 +135,8 @@ def handle (j : Json) : Json :=
   jobj [
     ("model", jobj [("ok", Json.bool res.isOk), ("shape", Json.str (shapeStr res)),
                     ("parts", jstrs (res.parts.map partStr)),
-                    ("authLog", jstrs (log.map (fun c => callKey c.scheme c.scopes)))]),
+                    ("authLog", jstrs (log.map (fun c => callKey c.scheme c.scopes))),
+                    ("composeAgree", Json.bool composeAgree)]),
     ("spec", jobj [("accept", Json.bool (acceptB o op env)),
                    ("failing", jstrs ((failingSpec o op env).map partStr))]),
     ("excl", jstrs (if exclNilAuthEmptyReq env op then ["NilAuthEmptyRequirement"] else [])),
